@@ -879,6 +879,8 @@ impl Inner {
             .await?;
 
         trace!("accept: verified authorization");
+        #[cfg(iroh_verif)]
+        iroh_base::verif::pause_async("relay.accept.after_admission").await;
 
         let io = RelayedStream {
             inner: io,
@@ -896,6 +898,22 @@ impl Inner {
         self.clients
             .register(client_conn_builder, self.metrics.clone());
         Ok(())
+    }
+}
+
+#[cfg(iroh_verif)]
+impl RelayService {
+    /// Verification hook: runs the real accept path (handshake, admission, registration)
+    /// over an in-memory stream that is already upgraded to a websocket.
+    pub async fn verif_accept(
+        &self,
+        io: tokio::io::DuplexStream,
+        request_parts: http::request::Parts,
+        protocol_version: ProtocolVersion,
+    ) -> Result<(), AcceptError> {
+        self.0
+            .accept(MaybeTlsStream::Test(io), request_parts, protocol_version)
+            .await
     }
 }
 
